@@ -179,6 +179,7 @@ type State struct {
 	underHavoc []*Term
 	qfacts []qfact
 	qdone  map[string]bool
+	idxTerms []*Term
 	colW   []wrec // writes performed on this path while collecting a loop's write set
 	globalHavocs []modLoc // heap-wide havocs already performed (replayed on heap components created later)
 }
@@ -195,6 +196,7 @@ func (s *State) clone() *State {
 	c.havocEpoch = s.havocEpoch
 	c.qfacts = append([]qfact(nil), s.qfacts...)
 	c.colW = append([]wrec(nil), s.colW...)
+	c.idxTerms = append([]*Term(nil), s.idxTerms...)
 	c.globalHavocs = append([]modLoc(nil), s.globalHavocs...)
 	c.qdone = make(map[string]bool, len(s.qdone))
 	for k, v := range s.qdone {
